@@ -581,6 +581,7 @@ void carquet_column_release_retired_pages(carquet_column_reader_t* reader) {
 
 static carquet_status_t load_dictionary_page_mmap(
     carquet_column_reader_t* reader,
+    int64_t dict_offset,
     carquet_error_t* error) {
 
     carquet_reader_t* file_reader = reader->file_reader;
@@ -588,7 +589,6 @@ static carquet_status_t load_dictionary_page_mmap(
     const parquet_column_metadata_t* col_meta = reader->col_meta;
 
     /* Parse page header directly from mmap */
-    int64_t dict_offset = col_meta->dictionary_page_offset;
     const uint8_t* header_ptr = mmap_data + dict_offset;
 
     parquet_page_header_t page_header;
@@ -673,6 +673,7 @@ static carquet_status_t load_dictionary_page_mmap(
 
 static carquet_status_t load_dictionary_page_fread(
     carquet_column_reader_t* reader,
+    int64_t dict_offset,
     carquet_error_t* error) {
 
     carquet_reader_t* file_reader = reader->file_reader;
@@ -680,7 +681,7 @@ static carquet_status_t load_dictionary_page_fread(
     const parquet_column_metadata_t* col_meta = reader->col_meta;
 
     /* Seek to dictionary page */
-    if (fseek(file, col_meta->dictionary_page_offset, SEEK_SET) != 0) {
+    if (fseek(file, dict_offset, SEEK_SET) != 0) {
         CARQUET_SET_ERROR(error, CARQUET_ERROR_FILE_SEEK, "Failed to seek to dictionary");
         return CARQUET_ERROR_FILE_SEEK;
     }
@@ -707,7 +708,7 @@ static carquet_status_t load_dictionary_page_fread(
     }
 
     /* Seek past header and read page data */
-    if (fseek(file, col_meta->dictionary_page_offset + (long)header_size, SEEK_SET) != 0) {
+    if (fseek(file, dict_offset + (long)header_size, SEEK_SET) != 0) {
         CARQUET_SET_ERROR(error, CARQUET_ERROR_FILE_SEEK, "Failed to seek past dict header");
         return CARQUET_ERROR_FILE_SEEK;
     }
@@ -776,7 +777,7 @@ static carquet_status_t load_dictionary_page_fread(
      * dictionary-encoded columns. The reliable offset is always right
      * after the dictionary page: dict_offset + header + compressed data. */
     if (status == CARQUET_OK) {
-        reader->data_start_offset = col_meta->dictionary_page_offset +
+        reader->data_start_offset = dict_offset +
                                     (int64_t)header_size +
                                     page_header.compressed_page_size;
     }
@@ -805,7 +806,8 @@ static carquet_status_t load_next_page_mmap(
 
     /* Load dictionary if needed (may update data_start_offset) */
     if (col_meta->has_dictionary_page_offset && !reader->has_dictionary) {
-        carquet_status_t status = load_dictionary_page_mmap(reader, error);
+        carquet_status_t status = load_dictionary_page_mmap(
+            reader, col_meta->dictionary_page_offset, error);
         if (status != CARQUET_OK) {
             return status;
         }
@@ -821,6 +823,24 @@ static carquet_status_t load_next_page_mmap(
         header_ptr, 256, &page_header, &header_size, error);
     if (status != CARQUET_OK) {
         return status;
+    }
+
+    /* dictionary_page_offset is optional: writers that omit it let
+     * data_page_offset point at the first page of the chunk, which is then
+     * the dictionary page. */
+    if (page_header.type == CARQUET_PAGE_DICTIONARY && !reader->has_dictionary &&
+        !col_meta->has_dictionary_page_offset && reader->current_page == 0) {
+        status = load_dictionary_page_mmap(reader, page_offset, error);
+        if (status != CARQUET_OK) {
+            return status;
+        }
+        page_offset = reader->data_start_offset;
+        header_ptr = mmap_data + page_offset;
+        status = parquet_parse_page_header(
+            header_ptr, 256, &page_header, &header_size, error);
+        if (status != CARQUET_OK) {
+            return status;
+        }
     }
 
     if (page_header.type != CARQUET_PAGE_DATA && page_header.type != CARQUET_PAGE_DATA_V2) {
@@ -1005,7 +1025,8 @@ static carquet_status_t load_next_page_fread(
 
     /* Load dictionary if needed (may update data_start_offset) */
     if (col_meta->has_dictionary_page_offset && !reader->has_dictionary) {
-        carquet_status_t status = load_dictionary_page_fread(reader, error);
+        carquet_status_t status = load_dictionary_page_fread(
+            reader, col_meta->dictionary_page_offset, error);
         if (status != CARQUET_OK) {
             return status;
         }
@@ -1032,6 +1053,32 @@ static carquet_status_t load_next_page_fread(
         header_buf, header_read, &page_header, &header_size, error);
     if (status != CARQUET_OK) {
         return status;
+    }
+
+    /* dictionary_page_offset is optional: writers that omit it let
+     * data_page_offset point at the first page of the chunk, which is then
+     * the dictionary page. */
+    if (page_header.type == CARQUET_PAGE_DICTIONARY && !reader->has_dictionary &&
+        !col_meta->has_dictionary_page_offset && reader->current_page == 0) {
+        status = load_dictionary_page_fread(reader, data_offset, error);
+        if (status != CARQUET_OK) {
+            return status;
+        }
+        data_offset = reader->data_start_offset;
+        if (fseek(file, data_offset, SEEK_SET) != 0) {
+            CARQUET_SET_ERROR(error, CARQUET_ERROR_FILE_SEEK, "Failed to seek to data page");
+            return CARQUET_ERROR_FILE_SEEK;
+        }
+        header_read = fread(header_buf, 1, sizeof(header_buf), file);
+        if (header_read < 8) {
+            CARQUET_SET_ERROR(error, CARQUET_ERROR_FILE_READ, "Failed to read page header");
+            return CARQUET_ERROR_FILE_READ;
+        }
+        status = parquet_parse_page_header(
+            header_buf, header_read, &page_header, &header_size, error);
+        if (status != CARQUET_OK) {
+            return status;
+        }
     }
 
     if (page_header.type != CARQUET_PAGE_DATA && page_header.type != CARQUET_PAGE_DATA_V2) {
